@@ -202,12 +202,16 @@ fn extract_pseudo_header_order(frames: &[Http2Frame]) -> Vec<PseudoHeader> {
         .find(|f| f.frame_type == Http2FrameType::Headers && f.stream_id > 0);
 
     if let Some(frame) = headers_frame {
-        if let Ok(headers) = decode_headers(&frame.payload) {
-            return headers
-                .iter()
-                .filter(|h| h.name.starts_with(':'))
-                .map(|h| PseudoHeader::from(h.name.as_str()))
-                .collect();
+        // decode the complete header block: pad-length / priority fields and padding removed,
+        // CONTINUATION fragments joined (RFC 7540, sections 6.2 and 6.10)
+        if let Some(block) = crate::http2_parser::first_header_block(frames, frame.stream_id) {
+            if let Ok(headers) = decode_headers(&block) {
+                return headers
+                    .iter()
+                    .filter(|h| h.name.starts_with(':'))
+                    .map(|h| PseudoHeader::from(h.name.as_str()))
+                    .collect();
+            }
         }
     }
 
